@@ -27,19 +27,21 @@ WILD = {
 
 
 def _xsd(wild):
-    return """<xs:schema xmlns:xs="http://www.w3.org/2001/XMLSchema" targetNamespace="tns" xmlns:t="tns" xmlns:f="ext">
+    # attributeFormDefault="qualified" with an explicit form="unqualified" on every local attribute that is meant to be
+    # unqualified: same meaning as without the default, but the explicit form has to win over the schema default
+    return """<xs:schema xmlns:xs="http://www.w3.org/2001/XMLSchema" targetNamespace="tns" xmlns:t="tns" xmlns:f="ext" attributeFormDefault="qualified">
   <xs:import namespace="ext"/>
   <xs:attribute name="glob" type="xs:int"/>
   <xs:attribute name="gfix" type="xs:int" fixed="3"/>
-  <xs:attributeGroup name="ag"><xs:attribute name="grp" type="xs:boolean"/></xs:attributeGroup>
+  <xs:attributeGroup name="ag"><xs:attribute name="grp" type="xs:boolean" form="unqualified"/></xs:attributeGroup>
   <xs:element name="e"><xs:complexType>
-    <xs:attribute name="req" type="xs:int" use="required"/>
-    <xs:attribute name="opt" type="xs:int"/>
-    <xs:attribute name="fix" type="xs:decimal" fixed="1.0"/>
-    <xs:attribute name="def" type="xs:int" default="7"/>
-    <xs:attribute name="fe" type="xs:string" fixed=""/>
+    <xs:attribute name="req" type="xs:int" use="required" form="unqualified"/>
+    <xs:attribute name="opt" type="xs:int" form="unqualified"/>
+    <xs:attribute name="fix" type="xs:decimal" fixed="1.0" form="unqualified"/>
+    <xs:attribute name="def" type="xs:int" default="7" form="unqualified"/>
+    <xs:attribute name="fe" type="xs:string" fixed="" form="unqualified"/>
     <xs:attribute ref="t:glob"/>
-    <xs:attribute name="qual" type="xs:int" form="qualified"/>
+    <xs:attribute name="qual" type="xs:int"/>
     <xs:attributeGroup ref="t:ag"/>
     %s
   </xs:complexType></xs:element></xs:schema>""" % WILD[wild]
